@@ -240,8 +240,8 @@ STRIPPING = {
 }
 
 
-def r3_stripped_length(ctx, configs):
-    r = ctx.rule('C10.R3', 'the shared secret has the fixed length of the group, independent of the (zero-stripped) length the primitive returned, and that length positions the copy', floor=4, engine='E8')
+def r3_stripped_length(ctx, configs, rule_id='C10.R3'):
+    r = ctx.rule(rule_id, 'the shared secret has the fixed length of the group, independent of the (zero-stripped) length the primitive returned, and that length positions the copy', floor=4, engine='E8')
     for cfg, prog in configs:
         for q, prim in STRIPPING['ossl' if cfg.startswith('ossl') else 'botan']:
             f = prog.fn(q)
